@@ -40,7 +40,8 @@ type Up4Gen struct {
 	Wide bool
 	// ForceSessQer / OneFlow: every session has a session QER / exactly one flow (crowds that hold many meter cells)
 	ForceSessQer bool
-	ForceFwd     bool // sessions forward downlink traffic to a gNB from their establishment on
+	BeforeDelete func() // called before every Session Deletion Request the generator sends (e.g. to arm a write failure)
+	ForceFwd     bool   // sessions forward downlink traffic to a gNB from their establishment on
 	OneFlow      bool
 	PeerBase     int // the generator's peers are p<PeerBase+1>..
 	// UsePfd: the application filters are provisioned as PFDs (one application per filter, one description per
@@ -845,6 +846,10 @@ func (g *Up4Gen) UpdateFlowQerAny(s interface{ Live() bool }, mode string) {
 // Delete deletes a live session.
 func (g *Up4Gen) Delete(s *usess) {
 	g.Stats["del"]++
+
+	if g.BeforeDelete != nil {
+		g.BeforeDelete()
+	}
 
 	if accepted(g.W.Del(s.peer, &SessReq{Hdr: s.up})) {
 		s.live = false
